@@ -139,6 +139,11 @@ func runC02(ctx *Ctx) *Report {
 		rep.Record(c, caseKey(c), c.Note != "well-formed", diffs)
 		rep.Count("massive:" + c.Mode)
 	})
+	knownHits.Lock()
+	for k, v := range knownHits.m {
+		rep.Known[k] += v
+	}
+	knownHits.Unlock()
 	return rep
 }
 
